@@ -111,6 +111,8 @@ def coq_ty(t):
         return "(list (nat * Q))"
     if t == "labs":
         return "(list lab)"
+    if t == "Olabs":
+        return "(option (list lab))"
     if isinstance(t, tuple) and t[0] == "list":
         return "(list %s)" % coq_ty(t[1])
     if isinstance(t, tuple) and t[0] == "pair":
@@ -258,8 +260,12 @@ class Fn:
             return qlit(int(txt))
         if a == "N" and txt.isdigit() and b == "Z":
             return "%s%%Z" % txt
-        if a == "none" and b in ("OQ", "ON"):
+        if a == "none" and b in ("OQ", "ON", "Olabs"):
             return "None"
+        if a == "ON" and b == "N":
+            if env is not None and path is not None and ("nonnone", path) in self.facts(env):
+                return "(py_unwrap_n %s)" % txt
+            self.bad(node, "an integer that may be None is used as a number")
         if a == "Q" and b == "OQ":
             return "(Some %s)" % txt
         if a == "N" and b == "ON":
@@ -411,6 +417,9 @@ class Fn:
         if ty == "OQ":
             t = self.coerce(t, "OQ", "Q", e, env, self.path(e))
             ty = "Q"
+        if ty == "ON":
+            t = self.coerce(t, "ON", "N", e, env, self.path(e))
+            ty = "N"
         if ty not in ("Q", "N", "Z"):
             self.bad(e, "numeric operand of type %r" % (ty,))
         return pre, t, ty, c
@@ -708,6 +717,10 @@ class Fn:
                 self.bad(e, "rng.randint lower bound")
             hi = b if tb == "N" else "(Z.to_nat %s)" % b
             return pa + pb + [(v, "(d_randint %s %s)" % (a, hi))], v, "N", NOCONST
+        if meth == "uniform" and len(e.args) == 2 and all(
+                isinstance(a, ast.Constant) and isinstance(a.value, int) and not isinstance(a.value, bool)
+                for a in e.args) and (e.args[0].value, e.args[1].value) == (0, 1):
+            return [(v, "py_uniform01")], v, "Q", NOCONST
         self.bad(e, "rng.%s" % meth)
 
     # ------------------------------------------------------------------ statement analysis
@@ -1083,6 +1096,8 @@ class Fn:
             hint = self.spec.get("locals", {}).get(t.id)
             if hint is not None and not is_list(hint) and ty != hint:
                 txt, ty = self.coerce(txt, ty, hint, s), hint
+                if txt == "None":
+                    txt = "(@None %s)" % {"ON": "nat", "OQ": "Q", "Olabs": "(list lab)"}[hint]
             if ty == "none":
                 env2 = self.bind(env, t.id, "none", None)
                 return self.emit_pre(pre, self.block(rest, env2, k, mode), mode, s)
@@ -1559,7 +1574,86 @@ class FnB(Fn):
         # len(X._child_nodes)
         if self.path(e.func) == "len" and len(e.args) == 1 and not e.keywords and self.is_kids(e.args[0], env):
             return [], "(b_nkids %s %s)" % (env["st_tr"].coq, self.bnode(e.args[0].value, env)), "N", NOCONST
+        # len(taxon_namespace)
+        if self.path(e.func) == "len" and len(e.args) == 1 and not e.keywords and isinstance(e.args[0], ast.Name) \
+                and e.args[0].id in env and env[e.args[0].id].ty == "labs":
+            return [], "(length %s)" % env[e.args[0].id].coq, "N", NOCONST
+        # dendropy.TaxonNamespace(): a new, empty namespace
+        if self.path(e.func) == "dendropy.TaxonNamespace" and not e.args and not e.keywords:
+            return [], "(@nil lab)", "labs", NOCONST
+        if self.is_kw_get(e, env):
+            return self.kw_get(e, env)
         return Fn.call(self, e, env)
+
+    # -- keyword options: kwargs.get(key[, default]) / kwargs[key] / key in kwargs -----------------
+    #    a key listed under `kwargs` in PLAN is passed by the call; a key under `kwargs_dyn` is passed
+    #    iff the corresponding parameter (an option) is not None; every other key is absent
+    def is_kw_get(self, e, env):
+        return (isinstance(e, ast.Call) and isinstance(e.func, ast.Attribute) and e.func.attr == "get"
+                and isinstance(e.func.value, ast.Name) and e.func.value.id in env
+                and env[e.func.value.id].ty == "kwargs" and not e.keywords and 1 <= len(e.args) <= 2
+                and isinstance(e.args[0], ast.Constant) and isinstance(e.args[0].value, str))
+
+    def kw_get(self, e, env):
+        kw = env[e.func.value.id]
+        key = e.args[0].value
+        dflt = e.args[1] if len(e.args) == 2 else ast.copy_location(ast.Constant(value=None), e)
+        if key in kw.keys:
+            ty, coq = kw.keys[key]
+            return [], coq, ty, NOCONST
+        dyn = getattr(kw, "dyn", {})
+        if key in dyn:
+            ty, coq = dyn[key]
+            base = {"ON": "N", "OQ": "Q"}[ty]
+            if isinstance(dflt, ast.Constant) and dflt.value is None:
+                return [], coq, ty, NOCONST
+            pre, t, dty, _c = self.ex(dflt, env)
+            if pre:
+                self.bad(e, "default of option %s draws" % key)
+            return [], "(py_kw_get %s %s)" % (coq, self.coerce(t, dty, base, e)), base, NOCONST
+        if isinstance(dflt, ast.Name) and dflt.id == "GLOBAL_RNG":
+            self.bad(e, "the generator is not passed: GLOBAL_RNG would be used")
+        return self.ex(dflt, env)
+
+    def subscript(self, e, env):
+        # kwargs[key]
+        if isinstance(e.value, ast.Name) and e.value.id in env and env[e.value.id].ty == "kwargs" \
+                and isinstance(e.slice, ast.Constant) and isinstance(e.slice.value, str):
+            kw, key = env[e.value.id], e.slice.value
+            if key in kw.keys:
+                ty, coq = kw.keys[key]
+                return [], coq, ty, NOCONST
+            dyn = getattr(kw, "dyn", {})
+            if key in dyn and ("nonnone", "%s.%s" % (e.value.id, key)) in self.facts(env):
+                ty, coq = dyn[key]
+                if ty == "ON":
+                    return [], "(py_unwrap_n %s)" % coq, "N", NOCONST
+                return [], "(py_unwrap %s)" % coq, "Q", NOCONST
+            self.bad(e, "kwargs[%r]: the key may be absent (KeyError)" % key)
+        return Fn.subscript(self, e, env)
+
+    def compare(self, e, env):
+        # X is Y / X is not Y for two nodes: identity of nodes = equality of their identities
+        if len(e.ops) == 1 and isinstance(e.ops[0], (ast.Is, ast.IsNot)) and self.is_bnode(e.left, env) \
+                and self.is_bnode(e.comparators[0], env):
+            txt = "(b_is %s %s)" % (self.bnode(e.left, env), self.bnode(e.comparators[0], env))
+            if isinstance(e.ops[0], ast.IsNot):
+                txt = "(negb %s)" % txt
+            return [], txt, "B", NOCONST
+        return Fn.compare(self, e, env)
+
+    def cond(self, e, env):
+        # key in kwargs / key not in kwargs for an option of kwargs_dyn: establishes that it is passed
+        if isinstance(e, ast.Compare) and len(e.ops) == 1 and isinstance(e.ops[0], (ast.In, ast.NotIn)) \
+                and isinstance(e.comparators[0], ast.Name) and e.comparators[0].id in env \
+                and env[e.comparators[0].id].ty == "kwargs" and isinstance(e.left, ast.Constant) \
+                and e.left.value in getattr(env[e.comparators[0].id], "dyn", {}):
+            ty, coq = env[e.comparators[0].id].dyn[e.left.value]
+            fact = ("nonnone", "%s.%s" % (e.comparators[0].id, e.left.value))
+            if isinstance(e.ops[0], ast.In):
+                return [], "(negb (py_is_none %s))" % coq, NOCONST, self.with_fact(env, fact), env
+            return [], "(py_is_none %s)" % coq, NOCONST, env, self.with_fact(env, fact)
+        return Fn.cond(self, e, env)
 
     def attribute_b(self, e, env, p):
         if e.attr == "seed_node" and self.is_bnode(e, env):
@@ -1599,6 +1693,9 @@ class FnB(Fn):
             return [], txt, "B", NOCONST
         if isinstance(r, ast.Name) and r.id in env and env[r.id].ty == "kwargs" \
                 and isinstance(l, ast.Constant) and isinstance(l.value, str):
+            if l.value in getattr(env[r.id], "dyn", {}):
+                pre, t, c, _a, _b = self.cond(e, env)
+                return pre, t, "B", c
             v = l.value in env[r.id].keys
             if isinstance(op, ast.NotIn):
                 v = not v
@@ -1675,6 +1772,8 @@ class FnB(Fn):
                 return ["st_tr", "st_next"]
             if e.func.attr in ("clear_child_nodes", "suppress_unifurcations", "prune_subtree"):
                 return ["st_tr"]
+            if e.func.attr == "randomly_assign_taxa":
+                return ["st_tr"] + [n for n, v in env.items() if isinstance(v, Var) and v.ty == "labs"]
             if isinstance(e.func.value, ast.Name) and e.func.value.id in env:
                 r, ty = e.func.value.id, env[e.func.value.id].ty
                 if e.func.attr in ("shuffle",) and env[r].ty == "rng" and e.args and isinstance(e.args[0], ast.Name):
@@ -1686,7 +1785,7 @@ class FnB(Fn):
         return []
 
     def monadic_calls(self):
-        return ("remove",)
+        return ("remove", "prune_subtree", "randomly_assign_taxa")
 
     # -- statements ------------------------------------------------------------------------------
     def st_Assign(self, s, rest, env, k, mode):
@@ -1715,6 +1814,13 @@ class FnB(Fn):
                     env2[t.id] = Var("const", "tt", d.value)
                 else:
                     self.bad(s, "default of option %s is not a literal" % key)
+            return self.block(rest, env2, k, mode)
+        # X = kwargs.get(key[, default]) for a key that is passed: X names the argument
+        if isinstance(t, ast.Name) and self.is_kw_get(v, env) and v.args[0].value in env[v.func.value.id].keys:
+            ty, coq = env[v.func.value.id].keys[v.args[0].value]
+            env2 = dict(env)
+            env2[t.id] = Var(ty, coq)
+            self.drop_facts(env2, t.id)
             return self.block(rest, env2, k, mode)
         # tree = dendropy.Tree(taxon_namespace=X)
         if (isinstance(t, ast.Name) and isinstance(v, ast.Call) and self.path(v.func) == "dendropy.Tree"
@@ -1828,6 +1934,32 @@ class FnB(Fn):
                     env2 = self.bind(env, "st_tr", "btree")
                     return "(let! v_st_tr := b_prune_subtree %s %s in\n  %s)" % (
                         env["st_tr"].coq, self.bnode(e.args[0], env), self.block(rest, env2, k, mode))
+                # tree.prune_subtree(nd): suppress_unifurcations defaults to True
+                if env[r].ty == "treeh" and meth == "prune_subtree" and len(e.args) == 1 and self.is_bnode(e.args[0], env) \
+                        and not e.keywords:
+                    if mode != "M":
+                        self.bad(s, "prune_subtree (can raise) inside a pure block")
+                    env2 = self.bind(env, "st_tr", "btree")
+                    return "(let! v_st_tr := b_prune_subtree_s %s %s in\n  %s)" % (
+                        env["st_tr"].coq, self.bnode(e.args[0], env), self.block(rest, env2, k, mode))
+                # tree.randomly_assign_taxa(create_required_taxa=True, rng=rng)
+                if env[r].ty == "treeh" and meth == "randomly_assign_taxa" and not e.args \
+                        and sorted(kw_.arg for kw_ in e.keywords) == ["create_required_taxa", "rng"]:
+                    kws = {kw_.arg: kw_.value for kw_ in e.keywords}
+                    if not (isinstance(kws["create_required_taxa"], ast.Constant) and kws["create_required_taxa"].value is True):
+                        self.bad(s, "randomly_assign_taxa is translated for create_required_taxa=True only")
+                    if not (isinstance(kws["rng"], ast.Name) and kws["rng"].id in env and env[kws["rng"].id].ty == "rng"):
+                        self.bad(s, "randomly_assign_taxa must be called with the generator that was passed in")
+                    if mode != "M":
+                        self.bad(s, "randomly_assign_taxa (draws) inside a pure block")
+                    nsn = [n for n, v_ in env.items() if isinstance(v_, Var) and v_.ty == "labs"]
+                    if len(nsn) != 1:
+                        self.bad(s, "no unique taxon namespace in scope")
+                    old_ns = env[nsn[0]].coq
+                    env2 = self.bind(env, "st_tr", "btree")
+                    env2 = self.bind(env2, nsn[0], "labs")
+                    return "(let! (v_st_tr, %s) := py_randomly_assign_taxa %s %s in\n  %s)" % (
+                        env2[nsn[0]].coq, env["st_tr"].coq, old_ns, self.block(rest, env2, k, mode))
                 # node_set.add(nd)
                 if env[r].ty == TList("bnode") and meth == "add" and len(e.args) == 1 and self.is_bnode(e.args[0], env):
                     old = env[r].coq
@@ -1963,6 +2095,10 @@ class FnB(Fn):
                 else:
                     kv.keys[key] = (ty, vname(key))
                     params.append((vname(key), ty))
+            kv.dyn = {}
+            for key, ty in spec.get("kwargs_dyn", {}).items():
+                kv.dyn[key] = (ty, vname(key))
+                params.append((vname(key), ty))
             env[self.fn.args.kwarg.arg] = kv
         self.top_fall = lambda e: self.result_tuple(e)
         k = K(self.top_fall, None, None, lambda t, ty, e: "(ret %s)" % t)
@@ -2014,7 +2150,7 @@ class FnB(Fn):
 
     def st_Return(self, s, rest, env, k, mode):
         if isinstance(s.value, ast.Name) and s.value.id in env and env[s.value.id].ty == "treeh":
-            extra = getattr(self, "part", {}).get("return_with", [])
+            extra = getattr(self, "part", {}).get("return_with") or self.spec.get("return_with", [])
             return "(ret %s)" % tuple_val([env["st_tr"].coq] + [env[n].coq for n in extra])
         return Fn.st_Return(self, s, rest, env, k, mode)
 
@@ -2463,6 +2599,19 @@ PLAN = [
                                        and isinstance(st_.value.func, ast.Attribute)
                                        and st_.value.func.attr == "suppress_unifurcations"),
                      fuel=["py_while (S (length (ids {st_tr})))"], result=["st_tr"])]),
+    # discrete_birth_death_tree (whole function), once for a call that passes taxon_namespace= and once for
+    # a call that does not; ntax / max_time are options (passed iff not None), repeat_until_success and rng
+    # are passed, tree= / assign_taxa= are not
+    dict(file="model/birthdeath.py", name="discrete_birth_death_tree", coq="gen_discrete_birth_death_tree_ns", cls="FnB",
+         params={"birth_rate": "Q", "death_rate": "Q", "birth_rate_sd": "Q", "death_rate_sd": "Q"},
+         kwargs={"taxon_namespace": "labs", "repeat_until_success": "B", "rng": "rng"},
+         kwargs_dyn={"ntax": "ON", "max_time": "ON"}, locals={"target_num_taxa": "ON"},
+         fuel=["py_while_script", "py_while_script"], ret="unit", register=False, return_with=["taxon_namespace"]),
+    dict(file="model/birthdeath.py", name="discrete_birth_death_tree", coq="gen_discrete_birth_death_tree", cls="FnB",
+         params={"birth_rate": "Q", "death_rate": "Q", "birth_rate_sd": "Q", "death_rate_sd": "Q"},
+         kwargs={"repeat_until_success": "B", "rng": "rng"},
+         kwargs_dyn={"ntax": "ON", "max_time": "ON"}, locals={"target_num_taxa": "ON"},
+         fuel=["py_while_script", "py_while_script"], ret="unit", register=False, return_with=["taxon_namespace"]),
 ]
 
 
@@ -2491,7 +2640,7 @@ def generate(repo):
     out = ["(* GENERATED by py/dv/gen_sim.py from calculate/probability.py, model/coalescent.py and",
            "   model/birthdeath.py -- do not edit *)",
            "From Coq Require Import QArith ZArith List Bool Arith.",
-           "From DV Require Import Model.C18Model Model.C18Prims.",
+           "From DV Require Import Model.C18Model Model.C18Prims Model.C18DiscPrims.",
            "From DV Require Model.PyPrims.",
            "Import ListNotations.",
            "Open Scope nat_scope.", ""]
